@@ -57,6 +57,40 @@ theorem generated_iter_live (T : DictSWC) (idx : List Int) (nm : SWCNames) (idc 
     have := handles_read ⟨written T k col j x, idx, nm⟩ k' _ hw idx.length (by simpa using hl.symm)
     simpa [List.map_map, Function.comp_def] using this
 
+/-- **iterating a tree** yields exactly the handles `tree[0]`, …, `tree[n-1]` (same owner, row k, in order), and read through them every
+column (as long as the id column) reports the owner's column -/
+theorem generated_tree_iter (T : DictSWC) (idc : List Int) (hid : Py.Dict.get? T.ndata T.names.id = some idc) :
+    tree_iter T = some ((arangeL idc.length).map fun i => (⟨T, i, T.names⟩ : TNode)) ∧
+    (∀ k : Nat, k < idc.length → tree_getitem_int T (k : Int) = some ⟨T, (k : Int), T.names⟩) ∧
+    ∀ key col, Py.Dict.get? T.ndata key = some col → col.length = idc.length →
+      (tree_iter T).bind (fun hs => hs.mapM fun n => tnode_getitem n key) = some col := by
+  refine ⟨tree_iter_eq T idc hid, ?_, ?_⟩
+  · intro k hk
+    rw [tree_getitem_int_eq T idc hid]
+    have h1 : ¬ ((k : Int) < -(idc.length : Int) ∨ (k : Int) ≥ idc.length) := by omega
+    have h2 : ¬ (k : Int) < 0 := by omega
+    simp [h1, normKey, h2, hk]
+  · intro key col hk hl
+    rw [tree_iter_eq T idc hid, Option.bind_some, ← hl]
+    exact tree_handles_read T T.names key col hk
+
+/-- **the handles of a tree are LIVE windows**: the handles produced by iterating the tree BEFORE `tree[i][k] = x` (row `j`), dereferenced over the
+owner AFTER the store, report the written column `col.set j x`; every other column reads as before the store -/
+theorem generated_tree_iter_live (T : DictSWC) (idc : List Int) (hid : Py.Dict.get? T.ndata T.names.id = some idc)
+    (k : String) (col : List Int) (j : Nat) (x : Int) (hl : col.length = idc.length) :
+    ∃ hs, tree_iter T = some hs ∧
+      (hs.map fun h => ({ h with attach := written T k col j x } : TNode)).mapM (fun n => tnode_getitem n k) = some (col.set j x) ∧
+      ∀ k' col', k' ≠ k → Py.Dict.get? T.ndata k' = some col' → col'.length = idc.length →
+        (hs.map fun h => ({ h with attach := written T k col j x } : TNode)).mapM (fun n => tnode_getitem n k') = some col' := by
+  refine ⟨_, tree_iter_eq T idc hid, ?_, ?_⟩
+  · have := tree_handles_read (written T k col j x) T.names k (col.set j x) (by simp [written_get])
+    rw [List.length_set, hl] at this
+    simpa [List.map_map, Function.comp_def] using this
+  · intro k' col' hne hk hl'
+    have := tree_handles_read (written T k col j x) T.names k' col' (by simp [written_get, hne, hk])
+    rw [hl'] at this
+    simpa [List.map_map, Function.comp_def] using this
+
 /-- from the content of a detached object to what a user reads -/
 theorem detached_content_reads (T : DictSWC) (idx : List Int) (nm : SWCNames) (D : Py.Dict String (List Int)) (n : Nat)
     (h2 : DetachedContent ⟨T, idx, nm⟩ n D) :
@@ -135,6 +169,7 @@ example : (branch_detach hxP).map (fun d => (d.idx, Py.Dict.get? d.attach.ndata 
     some ([0, 1], some [11, 13], some [-1, 0]) := by decide +kernel
 example : (tcomp_detach hxP).map (fun d => (d.idx, Py.Dict.get? d.attach.ndata "type", Py.Dict.get? d.attach.ndata "id")) =
     some ([0, 1], some [3, 2], some [0, 1]) := by decide +kernel
+example : (tree_iter hxT).bind (fun hs => hs.mapM fun n => tnode_getitem n "x") = some [10, 11, 12, 13] := by decide +kernel
 -- the hypotheses of the theorems hold for this input
 example : InRange hxP.idx 4 ∧ ∀ k ∈ Py.Dict.keys hxT.ndata, (path_get_ndata hxP k).isSome := by unfold InRange; decide +kernel
 end Examples
